@@ -2000,10 +2000,12 @@ def roi_to_subset_state(roi, x_att=None, y_att=None, x_categories=None, y_catego
 
     elif x_categories is not None or y_categories is not None:
 
-        if isinstance(roi, RectangularROI):
+        if isinstance(roi, RectangularROI) and np.isclose(roi.theta % np.pi, 0.0, atol=1e-9):
 
-            # In this specific case, we can decompose the rectangular ROI into
-            # two RangeROIs that are combined with an 'and' logical operation.
+            # In this specific case (no rotation, or rotation by a multiple of
+            # pi), we can decompose the rectangular ROI into two RangeROIs that
+            # are combined with an 'and' logical operation. A rotated rectangle
+            # is treated as a polygon below.
 
             range1 = XRangeROI(roi.xmin, roi.xmax)
             range2 = YRangeROI(roi.ymin, roi.ymax)
